@@ -139,7 +139,8 @@ Definition complete_results (p : params) (live : list (Z * vec)) (rq : request) 
               then let d := F32.canon (dist (p_metric p) pq (snd lv)) in
                    if thr_ok rq d then [(fst lv, d)] else []
               else []) live in
-  if forallb (fun x => pair_in x E) r then
+  if negb (r_cutoff rq =? -1) then true      (* autocut may shorten the list further *)
+  else if forallb (fun x => pair_in x E) r then
     (Z.of_nat (length r) =? sanitizeK (r_k rq) (Z.of_nat (length E))) &&
     match r with
     | [] => true
